@@ -5,7 +5,9 @@
 
    Clauses of the property text                         statements here
      "pretty text is accepted and parses to an equal    C18_statement            REFUTED (F11): C18_refuted
-      tree, for every parsed query and setting"         C18_modulo_lexing        proved: holds whenever the pretty
+      tree, for every parsed query and setting"         C18_plain_guard_statement  (no newline in a chunk) REFUTED
+                                                                                 too (F1 + time syntax)
+                                                        C18_modulo_lexing        proved: holds whenever the pretty
                                                                                  text lexes to the query's tokens
                                                         C18_respacing(_plain), C18_chunks_*   proved: what the
                                                                                  pretty text is, for every setting
@@ -54,6 +56,40 @@ Qed.
 
 (* what the witness shows: the newline inside the phrase became a blank — "a b" AND c *)
 Example C18_witness_text : wit_pretty = [34;97;32;98;34;32;65;78;68;32;99]%N.
+Proof. reflexivity. Qed.
+
+(* ---- the guard the design expected to suffice (no newline inside a chunk) does NOT: second witness
+   `-xT12 :30`.  It parses to Prohibit(SearchField(xT12, 30)); str() of that simple element drops the
+   blank before the colon (F1) and `-xT12:30` lexes as MINUS + one time-like TERM `xT12:30`. *)
+Definition C18_plain_guard_statement : Prop :=
+  forall s t cfg, parse s = Some (Ok t) -> no_newline_in_chunks t = true ->
+    exists p t', pretty cfg t = Some p /\ parse p = Some (Ok t') /\ item_eqb t' t = true.
+
+Definition wit2 : str := [45;120;84;49;50;32;58;51;48]%N.
+Definition wit2_tree : item :=
+  Eval vm_compute in match parse wit2 with Some (Ok t) => t | _ => NoneItem meta0 end.
+Definition wit2_pretty : str :=
+  Eval vm_compute in match pretty wit_cfg wit2_tree with Some p => p | None => [] end.
+Definition wit2_tree2 : item :=
+  Eval vm_compute in match parse wit2_pretty with Some (Ok t) => t | _ => NoneItem meta0 end.
+
+Lemma wit2_facts :
+  parse wit2 = Some (Ok wit2_tree) /\ no_newline_in_chunks wit2_tree = true /\
+  pretty wit_cfg wit2_tree = Some wit2_pretty /\ parse wit2_pretty = Some (Ok wit2_tree2) /\
+  item_eqb wit2_tree2 wit2_tree = false.
+Proof. vm_compute. auto. Qed.
+
+Theorem C18_plain_guard_refuted : ~ C18_plain_guard_statement.
+Proof.
+  destruct wit2_facts as [H1 [H2 [H3 [H4 H5]]]].
+  intros H. destruct (H wit2 wit2_tree wit_cfg H1 H2) as [p [t' [Hp [Hr He]]]].
+  rewrite H3 in Hp. inversion Hp; subst p.
+  rewrite H4 in Hr. inversion Hr; subst t'.
+  rewrite H5 in He. discriminate.
+Qed.
+
+(* -xT12:30 : the blank is gone *)
+Example C18_witness2_text : wit2_pretty = [45;120;84;49;50;58;51;48]%N.
 Proof. reflexivity. Qed.
 
 (* ---- determinism: the output is a function of (settings, tree) *)
@@ -115,8 +151,8 @@ Proof. intros cfg t p Hn Hp. exact (pretty_glued cfg t p Hn Hp). Qed.
 (* ---- the statement's conclusion modulo lexing: if the pretty text lexes to the same (type, lexeme)
    sequence as the query (and neither is cut by a lexical error), it is accepted and parses to an
    equal tree.  Uses the any-table layout independence of the LR driver (proofs/LayoutProofs.v).
-   The hypothesis is NOT discharged in general here (a lexer fact about re-spacings — false for F11
-   inputs); the correspondence evaluates the conclusion on every run. *)
+   The hypothesis is NOT discharged in general here (a lexer fact about the pretty text — false for the
+   F11 and F1 witnesses); the correspondence evaluates the conclusion on every run. *)
 Definition same_tokens (p s : str) : Prop :=
   map tok_key (fst (lex s)) = map tok_key (fst (lex p)) /\ (snd (lex s) = None <-> snd (lex p) = None).
 
@@ -172,8 +208,8 @@ Qed.
 (* the F11 witness violates the guard of C18_respacing_plain and the hypothesis of C18_modulo_lexing *)
 Example C18_witness_outside_guard : no_newline_in_chunks wit_tree = false.
 Proof. vm_compute. reflexivity. Qed.
-Example C18_witness_tokens_differ : ~ same_tokens wit_pretty wit.
-Proof. intros [H _]. vm_compute in H. discriminate. Qed.
+Example C18_witness_tokens_differ : ~ same_tokens wit_pretty wit /\ ~ same_tokens wit2_pretty wit2.
+Proof. split; intros [H _]; vm_compute in H; discriminate. Qed.
 
 (* when the code raises (programmatic trees only): an operation without operand at the root or in a
    group makes the final `yield last` of _apply_stick yield None (AttributeError on None.split); with
@@ -186,6 +222,7 @@ Example C18_raises_on_empty_operation :
 Proof. vm_compute. auto. Qed.
 
 Print Assumptions C18_refuted.
+Print Assumptions C18_plain_guard_refuted.
 Print Assumptions C18_deterministic.
 Print Assumptions C18_total.
 Print Assumptions C18_total_parsed.
